@@ -101,6 +101,14 @@ func genEncImage(env *Env, key []byte) encImage {
 	}
 	var regs [][2]uint32
 	pos := uint32(0)
+	big := r.Intn(8) == 0
+	if big { // more than 256 sectors, with one encrypted region across the 255/256 and 511/512 borders
+		nsec = 270 + r.Intn(300)
+		plain = make([]byte, nsec*2048+tail)
+		r.Read(plain)
+		regs = [][2]uint32{{0, uint32(1 + r.Intn(3))}, {uint32(nsec - 4), uint32(nsec - 2)}, {uint32(nsec - 1), uint32(nsec)}}
+		count = 0
+	}
 	for i := 0; i < count; i++ {
 		start := pos
 		if i > 0 {
@@ -110,11 +118,15 @@ func genEncImage(env *Env, key []byte) encImage {
 		regs = append(regs, [2]uint32{start, end})
 		pos = end
 	}
-	if r.Intn(6) == 0 { // regions reaching to or beyond the end of the file
+	if !big && r.Intn(6) == 0 { // regions reaching to or beyond the end of the file
 		regs[len(regs)-1][1] = uint32(nsec) + uint32(r.Intn(3))
 	}
 	// near-miss variants
-	switch r.Intn(12) {
+	nm := r.Intn(12)
+	if big {
+		nm = 99
+	}
+	switch nm {
 	case 0:
 		regs[0][0] = 1
 	case 1:
@@ -317,7 +329,7 @@ func runEnc(env *Env) error {
 				return b
 			}
 			pickN := func() int64 {
-				return []int64{1, 15, 16, 17, 512, 2047, 2048, 2049, 4096, 5000, 70000, 0}[env.Rnd.Intn(12)]
+				return []int64{1, 15, 16, 17, 512, 2047, 2048, 2049, 4096, 5000, 70000, 0, 8192, 600000}[env.Rnd.Intn(14)]
 			}
 			switch env.Rnd.Intn(10) {
 			case 0, 1, 2, 3:
